@@ -1,73 +1,81 @@
 """C12 — a correction that cannot use the measurement leaves the belief untouched (DESIGN.md §5 C12).
 
 Every correction class is driven through sequences of steps, each step with its own fault
-pattern (bits: measure predictedMeasure innovation noisecov freeze likelihood), over
-fault-injecting measurement / likelihood models.  The extracted model runs at the symbolic
-instance: its outputs are terms over the inputs of the run, so "identity" is the term predG<k>
-and stale members show up as terms of an earlier step."""
+pattern (bits: measure predictedMeasure innovation noisecov freeze likelihood; GPF: optionally a
+second six for the likelihood phase), over fault-injecting measurement / likelihood models that log
+EVERY call (also the description / matrix getters).  The extracted model runs at the symbolic
+instance: its outputs are terms over the inputs of the run, so "identity" is the term predG<k>.
+Call logs are compared exactly.  Beliefs are adversarial (unnormalised / positive log-weights,
+non-symmetric indefinite covariances and large means wherever the step must be an identity, N = 1,
+output objects of another component count): identity is bit-level, nothing needs a tolerance."""
 import itertools
 import numpy as np
 from vlib import caseio, gen
 
 ID = "C12"
-COQ_TARGETS = ["C12_Extract.vo", "C12_Proofs.vo", "C12_ProofsKF.vo", "C12_ProofsSym.vo", "C12_Regress.vo"]
-COQ_PREFIXES = ["C12", "C01"]
+COQ_TARGETS = ["C12_Extract.vo", "C12_Proofs.vo", "C12_ProofsKF.vo", "C12_ProofsSym.vo", "C12_Regress.vo", "C12_GPFInst.vo"]
+COQ_PREFIXES = ["C12", "C01", "C08", "C05"]
 EXTRACTED = "C12_model"
 DRIVER = "drv_C12.ml"
 HARNESS = "h_C12.cpp"
-VARIANTS = {"quick": ["assert"], "thorough": ["assert", "asan"]}
+VARIANTS = {"quick": ["assert", "O1"], "thorough": ["assert", "O1", "asan"]}
+MODEL_NEEDS_IMPL = True      # SIS only: whether the resampling test fired in each step (it depends on the numerical weights)
 AXIOMS_ALLOWED = []
-REQUIRED_THEOREMS = ["C12_kf_identity", "C12_ukf_identity", "C12_sukf_identity", "C12_bootstrap_identity",
-                     "C12_gpf_identity", "C12_likelihood_reports_failure", "C12_sis_skips_correction",
-                     "C12_no_fault_kf_is_C01", "C12_kf_call_log", "C12_ukf_additive_call_log",
+REQUIRED_THEOREMS = ["C12_kf_identity", "C12_kf_identity_any_model", "C12_ukf_identity", "C12_ukf_identity_any_model",
+                     "C12_sukf_identity", "C12_sukf_identity_any_model", "C12_bootstrap_identity", "C12_bootstrap_identity_iff",
+                     "C12_gpf_identity", "C12_gpf_identity_iff", "C12_gpf_identity_any_model",
+                     "C12_likelihood_reports_failure", "C12_likelihood_reports_failure_any_model", "C12_sis_skips_correction",
+                     "C12_no_fault_kf_is_C01", "C12_gpf_skeleton_is_C08", "C12_kf_call_log", "C12_ukf_generic_call_log", "C12_ukf_additive_call_log",
+                     "C12_sukf_call_log", "C12_gpf_call_log",
                      "C12_kf_likelihood_after_failure_reports_failure", "C12_ukf_likelihood_after_failure_reports_failure",
-                     "C12_sukf_likelihood_after_failure_reports_failure",
-                     "C12_gpf_inner_failure_refuted", "C12_gpf_transient_inner_failure_refuted"]
+                     "C12_sukf_likelihood_after_failure_reports_failure", "C12_skipped_correction_makes_no_call",
+                     "C12_kf_no_partial_update", "C12_gpf_no_partial_update", "C12_whole_object_is_componentwise",
+                     "C12_gpf_inner_failure_not_detected", "C12_gpf_inner_failure_refuted", "C12_gpf_transient_inner_failure_refuted",
+                     "C12_gpf_aliased_refuted"]
 TIMEOUT = 1500
 
 SITES = "MPINFL"
-# calls whose failure the class must honour (the property's "consulted" set)
-CONSULTED = {
-    "kf": "MPIN", "ukf_gen": "MPI", "ukf_add": "MPI", "sukf": "MPI", "gl": "MPIN",
-    "boot_gl": "MPIN", "boot_custom": "L",
-    "gpf_kf_gl": "MPIN", "gpf_ukfgen_gl": "MPIN", "gpf_ukfadd_gl": "MPIN",
-    "gpf_kf_custom": "MPINL", "gpf_ukfgen_custom": "MPIL", "gpf_ukfadd_custom": "MPIL",
-    "sis": "F",
-}
+GAUSS = ("kf", "ukf_gen", "ukf_add", "sukf")
+GPF_INNER = ("kf", "ukfgen", "ukfadd", "sukf")
+GPF_KINDS = tuple("gpf_%s_%s" % (i, l) for i in GPF_INNER for l in ("gl", "custom"))
+KINDS = GAUSS + ("gl", "boot_gl", "boot_custom") + GPF_KINDS
+# calls whose failure the class itself must honour
+CONSULTED = {"kf": "MPIN", "ukf_gen": "MPI", "ukf_add": "MPI", "sukf": "MPI", "gl": "MPIN", "boot_gl": "MPIN", "boot_custom": "L"}
+INNER_CONSULTED = {"kf": "MPIN", "ukfgen": "MPI", "ukfadd": "MPI", "sukf": "MPI"}
 # the bits enumerated exhaustively per class
-ENUMERATED = {
-    "kf": "MPIN", "ukf_gen": "MPIN", "ukf_add": "MPIN", "sukf": "MPIN", "gl": "MPIN",
-    "boot_gl": "MPIN", "boot_custom": "MPNL",
-    "gpf_kf_gl": "MPIN", "gpf_ukfgen_gl": "MPIN", "gpf_ukfadd_gl": "MPIN",
-    "gpf_kf_custom": "MPINL", "gpf_ukfgen_custom": "MPIL", "gpf_ukfadd_custom": "MPIL",
-    "sis": "FM",
-}
-PF = {"gl", "boot_gl", "boot_custom", "gpf_kf_gl", "gpf_ukfgen_gl", "gpf_ukfadd_gl", "gpf_kf_custom", "gpf_ukfgen_custom",
-      "gpf_ukfadd_custom", "sis"}
-GAUSS_MEMBERS = {"kf", "ukf_gen", "ukf_add", "sukf"}      # classes whose getLikelihood reads members of an earlier call
-ADDITIVE_UT = {"ukf_add", "gpf_ukfadd_gl", "gpf_ukfadd_custom"}
+ENUMERATED = {"kf": "MPIN", "ukf_gen": "MPIN", "ukf_add": "MPIN", "sukf": "MPIN", "gl": "MPIN", "boot_gl": "MPIN", "boot_custom": "MPNL"}
+for _k in GPF_KINDS:
+    ENUMERATED[_k] = "MPINL" if _k == "gpf_kf_custom" else ("MPIL" if _k.endswith("custom") else "MPIN")
+PF = set(("gl", "boot_gl", "boot_custom", "sis") + GPF_KINDS)
 GOOD = "000000"
+FLAGS = ("skip", "iskip", "emptyR", "alias", "online", "reduced")
 
 RULE = ("per class every subset of the enumerated failing calls (2^4, 2^5 for gpf_kf_custom) x sequences [p], [good,p], [good,p,good] "
-        "(thorough: also [p,good,p]) x 3 (thorough 12) random beliefs; for GPF over GaussianLikelihood additionally every pair "
-        "(subset seen by the wrapped correction, subset seen by the likelihood); SUKF also with a measurement size that is not a multiple "
-        "of the sub-size; "
-        "beliefs: n 1..4, m 1..3, components 1..4 (N = 2..6 particles for the particle classes), SPD covariances, arbitrary weights, "
-        "unrelated previous content of the output object (other component count when the first step fails); "
-        "non-trivial = at least one consulted call fails in some step; distinct by (class, pattern sequence, n, m, components)")
+        "(thorough: also [p,good,p]) x 2 (thorough 8) random beliefs; GPF over GaussianLikelihood additionally every pair (subset seen by "
+        "the wrapped correction, subset seen by the likelihood); configurations: skip_ on the driven / wrapped correction, correct(p,p), "
+        "update_weights_online, reduced noise covariance, failing noise-covariance call returning an empty matrix, SUKF size mismatch, "
+        "GPF over KF/UKF(both)/SUKF; SIS: 3-step runs of the real filtering thread over {ok, freeze fails, measure fails}^3 x "
+        "{degenerate, non-degenerate} weights. Beliefs adversarial: log-weights unnormalised and positive, covariances non-symmetric "
+        "indefinite and means 1e6 in steps that must be identities, N = 1..6, output object with junk content and (where the code allows) "
+        "another component count. non-trivial = some call the class honours fails in some step; distinct by (class, flags, pattern "
+        "sequence, n, m, components)")
 TRUSTED_BASE = ["Coq 8.16.1 kernel (coqc); no axioms (Print Assumptions: closed under the global context)",
                 "extraction (ExtrOcamlBasic only), ocaml/drv_C12.ml, ocaml/float_ops.ml, ocaml/caseio.ml",
-                "cpp/h_C12.cpp: the fault-injecting LinearMeasurementModel / LikelihoodModel doubles, their call log, vf::bit_equal",
+                "cpp/h_C12.cpp: the fault-injecting LinearMeasurementModel / LikelihoodModel doubles, their call log, vf::bit_equal, the "
+                "mirror of GPFCorrection's sampling used to pin the known finding",
+                "props/C12.py: the table of getter calls (getMeasurementDescription / getInputDescription / getMeasurementMatrix) "
+                "interleaved with the modelled calls is written in Python, not in Coq",
                 "the skeletons abstract every numerical routine as a function parameter: what they compute is the subject of C01/C04/C05/C08",
                 "correspondence is sampled: agreement of call logs / identity flags is established on the generated cases only",
                 "ListOps list instance of MatOps for the numerical KF instance (as in C01)"]
 ASSUMPTIONS = ["a measurement model reports unavailability only through the validity flags of measure / predictedMeasure / innovation / "
                "getNoiseCovarianceMatrix / freeze, a likelihood model only through the flag of likelihood (no exceptions)",
-               "the fault pattern is a function of the call site (all calls of one site within a step fail or succeed together)"]
+               "the fault pattern is a function of the call site per phase (all calls of one site within a phase fail or succeed together)",
+               "predicted and corrected belief are distinct objects (correct(p, p) is exercised and modelled; GPFCorrection does not support it)"]
 
-COUNTS = {"quick": 3, "thorough": 12}      # random beliefs per (class, pattern, sequence form)
-
-STATS = {"steps_checked_identity": 0, "likelihood_failure_checked_after_success": 0}
+COUNTS = {"quick": 2, "thorough": 8}      # random beliefs per (class, pattern, sequence form)
+STATS = {"steps_checked_identity": 0, "likelihood_failure_checked_after_success": 0, "finding_steps_pinned_to_model": 0,
+         "empty_noise_covariance_consumed": {}, "sis_failed_freeze_steps": 0}
 
 
 # ------------------------------------------------------------------ generation
@@ -76,52 +84,119 @@ def bits(fail):
     return "".join("1" if s in fail else "0" for s in SITES)
 
 
-def fails(pat, sites):
-    return any(pat[SITES.index(s)] == "1" for s in sites)
+def bit(q, s):
+    return q[SITES.index(s)] == "1"
 
 
-def log_weights(rng, k):
-    w = np.array([rng.random() + 0.1 for _ in range(k)])
+def flag(c, name):
+    return str(c.meta.get(name, "0")) == "1"
+
+
+def weights(rng, k):
+    """log-weights: normalised, unnormalised, or with positive entries"""
+    mode = rng.choice(["norm", "unnorm", "positive", "positive"])
+    if mode == "norm":
+        w = np.array([rng.random() + 0.1 for _ in range(k)]); return np.log(w / w.sum()).reshape(-1, 1)
+    if mode == "unnorm":
+        return np.array([rng.uniform(-5.0, -0.1) for _ in range(k)]).reshape(-1, 1)
+    return np.array([rng.uniform(-2.0, 3.0) for _ in range(k)]).reshape(-1, 1)
+
+
+def degenerate_weights(rng, k):
+    w = np.full(k, 1e-9); w[rng.randrange(k)] = 1.0
     return np.log(w / w.sum()).reshape(-1, 1)
 
 
-def belief(rng, c, sfx, n, comps, pf, pfx=""):
-    c.mat(pfx + "means" + sfx, gen.matrix(rng, n, comps, 3.0))
-    c.mat(pfx + "covs" + sfx, np.hstack([gen.spd(rng, n, 10 ** rng.uniform(0, 3))[0] for _ in range(comps)]))
-    c.mat(pfx + "weights" + sfx, log_weights(rng, comps))
+def belief(rng, c, sfx, n, comps, pf, pfx="", adversarial=False, w=None):
+    scale = 1e6 if adversarial and rng.random() < 0.5 else 3.0
+    c.mat(pfx + "means" + sfx, gen.matrix(rng, n, comps, scale))
+    if adversarial:
+        covs = [gen.matrix(rng, n, n, 2.0) for _ in range(comps)]          # non-symmetric, indefinite
+    else:
+        covs = [gen.spd(rng, n, 10 ** rng.uniform(0, 3))[0] for _ in range(comps)]
+    c.mat(pfx + "covs" + sfx, np.hstack(covs))
+    c.mat(pfx + "weights" + sfx, weights(rng, comps) if w is None else w)
     if pf:
-        c.mat(pfx + "states" + sfx, gen.matrix(rng, n, comps, 3.0))
+        c.mat(pfx + "states" + sfx, gen.matrix(rng, n, comps, scale))
 
 
-def make_case(rng, cid, kind, pats, dims=None, sub=None, outcomps=None):
+def unusable(c, p):
+    """(tag, cannot_use, lik_must_fail): which calls the class honours fail in step pattern p.
+    For GPF the pattern may have two phases (wrapped correction / likelihood).  A skipped correction consults nothing."""
+    kind = c.kind
+    p1, p2 = p[:6], (p[6:12] if len(p) >= 12 else p[:6])
+    if flag(c, "skip"):
+        return "skipped", False, False
+    if kind.startswith("gpf_"):
+        _, inner, lik = kind.split("_")
+        fi = "" if flag(c, "iskip") else "".join(s for s in INNER_CONSULTED[inner] if bit(p1, s))
+        if inner == "sukf" and not flag(c, "iskip") and int(c.meta["m"]) % int(c.meta["sub"]) != 0:
+            fi += "(size)"
+        fl = "".join(s for s in ("L" if lik == "custom" else "MPIN") if bit(p2, s))
+        return "fail=%s/%s" % (fi or "-", fl or "-"), bool(fi or fl), bool(fl)
+    failing = "".join(s for s in CONSULTED[kind] if bit(p1, s))
+    mismatch = kind == "sukf" and int(c.meta["m"]) % int(c.meta["sub"]) != 0
+    tag = "fail=%s" % (failing or ("size-mismatch" if mismatch else "none"))
+    lik_sites = "L" if kind.endswith("_custom") else "MPIN"
+    return tag, bool(failing) or mismatch, any(bit(p1, s) for s in lik_sites)
+
+
+def make_case(rng, cid, kind, pats, dims=None, sub=None, flags=(), outcomps=None):
     pf = kind in PF
     if dims is None:
         n, m = rng.randint(1, 4), rng.randint(1, 3)
-        comps = rng.randint(2, 6) if pf else rng.randint(1, 4)
+        comps = rng.randint(1, 6) if pf else rng.randint(1, 4)
     else:
         n, m, comps = dims
-    if kind == "sukf" and sub is None:
+    if sub is None:
         sub = rng.choice([d for d in range(1, m + 1) if m % d == 0])
-    consulted = CONSULTED[kind]
+    meta = {"n": n, "m": m, "comps": comps, "steps": len(pats), "sub": sub, "seq": "+".join(pats)}
+    for f in FLAGS:
+        meta[f] = 1 if f in flags else 0
     faulty = any("1" in p for p in pats)
-    risky = 1 if (faulty and ("ukf" in kind)) else 0
-    oc = comps if outcomps is None else outcomps
-    meta = {"n": n, "m": m, "comps": comps, "steps": len(pats), "sub": sub or 1, "risky": risky, "outcomps": oc,
-            "seq": "+".join(pats)}
+    meta["risky"] = 1 if (faulty and ("ukf" in kind)) or "emptyR" in flags else 0
     c = caseio.Case(cid, kind, meta)
+    # output object: other component count only where the code under test allows it
+    first_tag, first_cannot, first_lik = unusable(c, pats[0])
+    oc = comps
+    if outcomps is None and "alias" not in flags and rng.random() < 0.4:
+        if kind in ("boot_gl", "boot_custom") or (kind in GAUSS and (first_cannot or "skip" in flags)):
+            oc = comps + rng.choice([1, 2]) if comps == 1 or rng.random() < 0.5 else comps - 1
+    elif outcomps is not None:
+        oc = outcomps
+    c.meta["outcomps"] = oc
+    c.word("pat", pats)
+    c.mat("H", gen.matrix(rng, m, n))
+    c.mat("R", gen.spd(rng, m, 10 ** rng.uniform(0, 2))[0])
+    for k, p in enumerate(pats):
+        c.mat("y%d" % k, gen.matrix(rng, m, 1, 5.0))
+        _, cannot, likfail = unusable(c, p)
+        # adversarial numbers wherever the step must hand back the predicted belief without using it for an update
+        adv = (likfail if kind.startswith("gpf_") else cannot) or "skip" in flags
+        belief(rng, c, str(k), n, comps, pf, adversarial=adv)
+    belief(rng, c, "", n, oc, pf, "o", adversarial=True)
+    return c
+
+
+def sis_case(rng, cid, pats, degenerate):
+    n, m = rng.randint(1, 3), rng.randint(1, 2)
+    N = rng.randint(4, 8) if degenerate else rng.randint(1, 6)
+    meta = {"n": n, "m": m, "comps": N, "steps": len(pats), "sub": 1, "seq": "+".join(pats), "risky": 0, "outcomps": N,
+            "degenerate": int(degenerate)}
+    for f in FLAGS:
+        meta[f] = 0
+    c = caseio.Case(cid, "sis", meta)
     c.word("pat", pats)
     c.mat("H", gen.matrix(rng, m, n))
     c.mat("R", gen.spd(rng, m, 10 ** rng.uniform(0, 2))[0])
     for k in range(len(pats)):
         c.mat("y%d" % k, gen.matrix(rng, m, 1, 5.0))
-        belief(rng, c, str(k), n, comps, pf)
-    belief(rng, c, "", n, oc, pf, "o")
+    belief(rng, c, "0", n, N, True, w=degenerate_weights(rng, N) if degenerate else None)
+    belief(rng, c, "", n, N, True, "o", adversarial=True)
     return c
 
 
 def sequences(p, tier, kind):
-    if kind == "sis":
-        return [[p]]
     seqs = [[p], [GOOD, p]]
     if kind != "gl":
         seqs.append([GOOD, p, GOOD])
@@ -130,56 +205,76 @@ def sequences(p, tier, kind):
     return seqs
 
 
+def subsets(sites):
+    for r in range(len(sites) + 1):
+        for sub in itertools.combinations(sites, r):
+            yield sub
+
+
 def generate(rng, tier):
-    cases, cid = [], 0
+    cases = []
     reps = COUNTS[tier]
-    for kind in CONSULTED:
-        en = ENUMERATED[kind]
-        for r in range(len(en) + 1):
-            for sub in itertools.combinations(en, r):
-                p = bits(sub)
-                for seq in sequences(p, tier, kind):
-                    for _ in range(reps):
-                        oc = None
-                        if kind in GAUSS_MEMBERS and fails(seq[0], CONSULTED[kind]) and rng.random() < 0.35:
-                            oc = -1
-                        dims = None
-                        if kind in ADDITIVE_UT and rng.random() < 0.4:
-                            # the only shapes for which the additive transform's post-processing of a
-                            # default-constructed output stays in bounds
-                            dims = (rng.randint(1, 4), 1, 1)
-                            if kind != "ukf_add":
-                                dims = None
-                        if kind == "ukf_gen" and rng.random() < 0.25:
-                            dims = (rng.randint(1, 4), 1, 1)
-                        c = make_case(rng, cid, kind, seq, dims=dims)
-                        if oc == -1:
-                            comps = int(c.meta["comps"])
-                            c = make_case(rng, cid, kind, seq, dims=(int(c.meta["n"]), int(c.meta["m"]), comps),
-                                          sub=int(c.meta["sub"]), outcomps=comps + rng.choice([1, 2]))
-                        cases.append(c); cid += 1
-    # GPF over the shipped GaussianLikelihood, two-phase patterns: every subset of the calls made by the wrapped
-    # correction x every subset of the calls made by the likelihood
-    for kind in ("gpf_kf_gl", "gpf_ukfgen_gl", "gpf_ukfadd_gl"):
-        for r1 in range(5):
-            for s1 in itertools.combinations("MPIN", r1):
-                for r2 in range(5):
-                    for s2 in itertools.combinations("MPIN", r2):
-                        if s1 == s2:
-                            continue
-                        p = bits(s1) + bits(s2)
-                        for seq in ([p],) if tier == "quick" else ([p], [GOOD, p]):
-                            cases.append(make_case(rng, cid, kind, seq)); cid += 1
-    # SUKF: measurement size not a multiple of the sub-size, with and without other faults
-    for p in [GOOD, bits("M"), bits("P"), bits("I"), bits("N")]:
-        for seq in ([p], [GOOD, p]):
-            for _ in range(reps):
-                m, sub = rng.choice([(3, 2), (2, 3), (1, 2)])
-                cases.append(make_case(rng, cid, "sukf", seq, dims=(rng.randint(1, 4), m, rng.randint(1, 4)), sub=sub)); cid += 1
+
+    def add(kind, seq, **kw):
+        cases.append(make_case(rng, len(cases), kind, seq, **kw))
+
+    for kind in KINDS:
+        for sub in subsets(ENUMERATED[kind]):
+            p = bits(sub)
+            for seq in sequences(p, tier, kind):
+                for _ in range(reps):
+                    add(kind, seq)
+    # GPF over the shipped GaussianLikelihood, two-phase patterns
+    for inner in GPF_INNER:
+        kind = "gpf_%s_gl" % inner
+        for s1 in subsets("MPIN"):
+            for s2 in subsets("MPIN"):
+                if s1 == s2:
+                    continue
+                p = bits(s1) + bits(s2)
+                for seq in ([p],) if tier == "quick" else ([p], [GOOD, p]):
+                    add(kind, seq)
+    # SUKF (alone and inside GPF): measurement size not a multiple of the sub-size
+    for kind in ("sukf", "gpf_sukf_gl", "gpf_sukf_custom"):
+        for p in [GOOD, bits("M"), bits("P"), bits("I"), bits("N")]:
+            for seq in ([p], [GOOD, p]):
+                for _ in range(reps):
+                    m, sub = rng.choice([(3, 2), (2, 3), (1, 2)])
+                    add(kind, seq, dims=(rng.randint(1, 4), m, rng.randint(1, 4)), sub=sub)
+    # configurations: a representative set of patterns each
+    some = [GOOD, bits("M"), bits("P"), bits("I"), bits("N"), bits("MN"), bits("PI"), bits("L"), bits("NL")]
+    for _ in range(reps):
+        for p in some:
+            for kind in KINDS:
+                for seq in ([p], [GOOD, p]):
+                    if kind == "gl":
+                        continue
+                    add(kind, seq, flags=("skip",))                    # skip_ on the driven correction
+                    add(kind, seq, flags=("alias",))                   # correct(p, p)
+                    if kind.startswith("gpf_"):
+                        add(kind, seq, flags=("iskip",))               # skip_ on the wrapped correction
+                        add(kind, seq, flags=("skip", "iskip"))
+                add(kind, [p], flags=("emptyR",))                      # (false, empty matrix)
+                add(kind, [GOOD, p], flags=("emptyR",))
+            add("ukf_gen", [p], flags=("online",)); add("ukf_gen", [GOOD, p, GOOD], flags=("online",))
+            for seq in ([p], [GOOD, p, GOOD]):
+                m, sub = rng.choice([(2, 1), (3, 1), (2, 2), (3, 3)])
+                add("sukf", seq, dims=(rng.randint(1, 4), m, rng.randint(1, 4)), sub=sub, flags=("reduced",))
+    # SIS: the real filtering thread, 3 steps
+    three = [GOOD, bits("F"), bits("M")]
+    for _ in range(1 if tier == "quick" else 6):
+        for a in three:
+            for b in three:
+                for d in three:
+                    for deg in (False, True):
+                        cases.append(sis_case(rng, len(cases), [a, b, d], deg))
     return cases
 
 
 # ------------------------------------------------------------------ evaluation
+
+GETTERS = ("D", "Di", "H")
+
 
 def word(rec, name):
     v = rec.get(name)
@@ -188,23 +283,83 @@ def word(rec, name):
     return [t for t in v if t != "-"]
 
 
-def collapse(l):
-    out = []
-    for t in l or []:
-        if not out or out[-1] != t:
-            out.append(t)
-    return out
+def no_getters(l):
+    return [t for t in (l or []) if t not in GETTERS]
 
 
-def hazard_shape(c):
-    return int(c.meta["m"]) != 1 or int(c.meta["comps"]) > 1
+def inner_full(inner, p1, c, skipped):
+    """Calls made by a Gaussian correction under the phase-1 pattern p1, getters included (this table is Python, not Coq;
+    with the getters removed it must equal the model's log, which is checked)."""
+    if skipped:
+        return []
+    M, P, I, N = (bit(p1, s) for s in "MPIN")
+    if inner == "kf":
+        l = ["M"]
+        if not M:
+            l.append("P")
+            if not P:
+                l.append("I")
+                if not I:
+                    l.append("N")
+                    if not N:
+                        l.append("H")
+        return l
+    if inner == "ukfgen":
+        l = ["M"]
+        if not M:
+            l += ["N"] + (["Di"] if flag(c, "online") else []) + ["P", "D"]
+            if not P:
+                l.append("I")
+        return l
+    if inner == "ukfadd":
+        l = ["M"]
+        if not M:
+            l += ["P", "D"]
+            if not P:
+                l += ["N", "I"]
+        return l
+    m, sub, comps = int(c.meta["m"]), int(c.meta["sub"]), int(c.meta["comps"])
+    l = ["M", "D"]
+    if not M and m % sub == 0:
+        l.append("P")
+        if not P:
+            l.append("I")
+            if not I:
+                l += ["N"] * (comps * (m // sub))
+    return l
 
 
-def expected_crash(c, model):
-    """(step, phase) at which the model predicts an abnormal end.  None at HEAD: the two places that could abort
-    (additive unscented transform post-processing GaussianMixture() after a failed evaluation; getLikelihood evaluating
-    stale innovations_ against a default predicted_meas_) were repaired by 49d7ed0 / 201e1b4 and the model follows the
-    repaired code (the old transcription is C12_Regress.v)."""
+def expected_log(c, k, model_log):
+    """The exact call list of step k, getters included, or a string describing an inconsistency of the getter table."""
+    kind, p = c.kind, c.get("pat")[k]
+    if flag(c, "skip"):
+        return []
+    if kind in GAUSS or kind.startswith("gpf_"):
+        inner = {"kf": "kf", "ukf_gen": "ukfgen", "ukf_add": "ukfadd", "sukf": "sukf"}.get(kind) or kind.split("_")[1]
+        full = inner_full(inner, p[:6], c, kind.startswith("gpf_") and flag(c, "iskip"))
+        ng = no_getters(full)
+        if model_log[:len(ng)] != ng:
+            return "getter table inconsistent with the model: %s vs %s" % (ng, model_log)
+        return full + model_log[len(ng):]
+    return list(model_log)
+
+
+def garbage_step(c, model):
+    """First step in which an EMPTY noise covariance, returned next to a false flag, is read by a caller that ignores the
+    flag (UKFCorrection.cpp:114 generic, sigma_point.cpp:313 additive, SUKFCorrection.cpp:200): from there on the
+    implementation's behaviour is not predicted here (size mismatch on an empty matrix: C14's business).  The rule follows
+    the model's call order: the read happens iff the model's log of that step contains N made by such a caller."""
+    if not flag(c, "emptyR") or flag(c, "skip"):
+        return None
+    kind = c.kind
+    inner = {"ukf_gen": "ukfgen", "ukf_add": "ukfadd", "sukf": "sukf"}.get(kind)
+    if kind.startswith("gpf_") and not flag(c, "iskip"):
+        inner = kind.split("_")[1]
+    if inner not in ("ukfgen", "ukfadd", "sukf"):
+        return None
+    for k, p in enumerate(c.get("pat")):
+        if bit(p[:6], "N") and "N" in inner_full(inner, p[:6], c, False):
+            return k
     return None
 
 
@@ -219,49 +374,51 @@ def crash_point(impl):
         return (k, "lik")
     return (k, "correct")
 
-INNER_CONSULTED = {"kf": "MPIN", "ukfgen": "MPI", "ukfadd": "MPI"}
 
-
-def unusable(c, p):
-    """(tag, cannot_use, lik_must_fail): which calls the class honours fail in step pattern p.
-    For GPF the pattern may have two phases (wrapped correction / likelihood)."""
-    kind = c.kind
-    p1, p2 = p[:6], (p[6:12] if len(p) >= 12 else p[:6])
-    bit = lambda q, s: q[SITES.index(s)] == "1"
-    if kind.startswith("gpf_"):
-        _, inner, lik = kind.split("_")
-        fi = "".join(s for s in INNER_CONSULTED[inner] if bit(p1, s))
-        fl = "".join(s for s in ("L" if lik == "custom" else "MPIN") if bit(p2, s))
-        return "fail=%s/%s" % (fi or "-", fl or "-"), bool(fi or fl), bool(fl)
-    failing = "".join(s for s in CONSULTED[kind] if bit(p1, s))
-    mismatch = kind == "sukf" and int(c.meta["m"]) % int(c.meta["sub"]) != 0
-    tag = "fail=%s" % (failing or ("size-mismatch" if mismatch else "none"))
-    lik_sites = "L" if kind.endswith("_custom") else "MPIN"
-    return tag, bool(failing) or mismatch, any(bit(p1, s) for s in lik_sites)
+def compare_sis(c, impl, model):
+    d = []
+    if impl.get("steps_run") != int(c.meta["steps"]):
+        d.append("steps run: %s" % impl.get("steps_run"))
+        return d
+    for k in range(int(c.meta["steps"])):
+        ks = str(k)
+        ie = [t for t in word(impl, "events" + ks) if t not in GETTERS]
+        me = [t for t in word(model, "events" + ks) if t != "normalise"]
+        if ie != me:
+            d.append("events%s: impl %s model %s" % (ks, ie, me))
+        # one direction only: normalising the weights of an untouched set can be a numerical no-op
+        at_is_pred = model.get("atlog_g" + ks) == model.get("pred_g" + ks) and model.get("atlog_s" + ks) == model.get("pred_s" + ks)
+        if at_is_pred and impl.get("ident_atlog" + ks) != 1:
+            d.append("ident_atlog%s: impl %s model %s" % (ks, impl.get("ident_atlog" + ks), at_is_pred))
+        end_is_at = model.get("cor_g" + ks) == model.get("atlog_g" + ks) and model.get("cor_s" + ks) == model.get("atlog_s" + ks)
+        if (impl.get("cor_is_atlog" + ks) == 1) != end_is_at:
+            d.append("cor_is_atlog%s: impl %s model %s" % (ks, impl.get("cor_is_atlog" + ks), end_is_at))
+    return d
 
 
 def compare(c, impl, model):
     d = []
     kind = c.kind
-    steps = int(c.meta["steps"])
-    exp, got = expected_crash(c, model), crash_point(impl)
-    if exp != got:
-        d.append("crash point: impl %s (%s %s), model predicts %s" % (got, impl.get("crash_kind"), impl.get("crash_cond"), exp))
-    last = steps if got is None else got[0] + (1 if got[1] == "lik" else 0)
     if kind == "sis":
-        ev = [t for t in word(model, "events") if t in ("F", "C")]
-        if ev != [t for t in word(impl, "log0") if t in ("F", "C")]:
-            d.append("events: impl %s model %s" % (word(impl, "log0"), ev))
-        ident = model.get("g0") == ["predG0"] and model.get("s0") == ["predS0"]
-        if (impl.get("ident0") == 1) != ident:
-            d.append("ident0: impl %s model %s" % (impl.get("ident0"), ident))
-        return d
+        return compare_sis(c, impl, model)
+    steps = int(c.meta["steps"])
+    gstep, got = garbage_step(c, model), crash_point(impl)
+    if got is not None and (gstep is None or got[0] < gstep):
+        d.append("crash point: impl %s (%s %s), the model predicts none" % (got, impl.get("crash_kind"), impl.get("crash_cond")))
+    last = steps if got is None else got[0] + (1 if got[1] == "lik" else 0)
+    if gstep is not None:
+        last = min(last, gstep)              # from the garbage step on nothing is predicted
     lik_terms = {}
+    alias = flag(c, "alias")
     for k in range(last):
         ks = str(k)
         full = got is None or k < got[0]
-        if collapse(word(impl, "log" + ks)) != collapse(word(model, "log" + ks)):
-            d.append("log%s: impl %s model %s" % (ks, word(impl, "log" + ks), word(model, "log" + ks)))
+        ml = word(model, "log" + ks)
+        el = expected_log(c, k, ml)
+        if isinstance(el, str):
+            d.append("log%s: %s" % (ks, el))
+        elif word(impl, "log" + ks) != el:
+            d.append("log%s: impl %s expected %s (model %s)" % (ks, word(impl, "log" + ks), el, ml))
         if kind != "gl":
             mg = model.get("g" + ks) == ["predG" + ks]
             if (impl.get("ident_g" + ks) == 1) != mg:
@@ -274,14 +431,13 @@ def compare(c, impl, model):
             continue
         if impl.get("lik_valid" + ks) != model.get("lik_valid" + ks):
             d.append("lik_valid%s: impl %s model %s" % (ks, impl.get("lik_valid" + ks), model.get("lik_valid" + ks)))
-        if collapse(word(impl, "liklog" + ks)) != collapse(word(model, "liklog" + ks)):
+        if no_getters(word(impl, "liklog" + ks)) != word(model, "liklog" + ks) or word(impl, "liklog" + ks) != no_getters(word(impl, "liklog" + ks)):
             d.append("liklog%s: impl %s model %s" % (ks, word(impl, "liklog" + ks), word(model, "liklog" + ks)))
         lt, lv = model.get("lik" + ks)[0], impl.get("lik" + ks)
         if lt == "zero1" and not (lv is not None and lv.shape == (1, 1) and lv[0, 0] == 0.0):
             d.append("lik%s: model says Zero(1), impl %s" % (ks, None if lv is None else lv.shape))
         if lt == "empty" and not (lv is not None and lv.size == 0):
             d.append("lik%s: model says empty, impl %s" % (ks, None if lv is None else lv.shape))
-        # equal terms => equal bits (stale values are literally the earlier values)
         if lt in lik_terms and lv is not None:
             lv0 = lik_terms[lt]
             if lv0.shape != lv.shape or lv0.tobytes() != lv.tobytes():
@@ -289,10 +445,10 @@ def compare(c, impl, model):
                     d.append("lik%s: model term equals an earlier step's, impl values differ" % ks)
         elif lv is not None:
             lik_terms[lt] = lv
-    if kind == "kf" and impl.has("mean0") and model.has("num_mean"):
+    if kind == "kf" and impl.has("mean0") and model.has("num_mean") and not alias:
         # the numerical KF instance of the same skeleton, step 0: identity is exact, the update to rounding
         p0 = c.get("pat")[0]
-        exact = fails(p0, "MPIN")
+        exact = any(bit(p0, s) for s in "MPIN")
         tol = 0.0 if exact else 1e-9
         for a, b in (("mean0", "num_mean"), ("cov0", "num_cov"), ("w0", "num_w")):
             x, y = impl.get(a), model.get(b)
@@ -307,22 +463,39 @@ def compare(c, impl, model):
     return d
 
 
+def oracle_sis(c, impl):
+    v = []
+    pats = c.get("pat")
+    for k in range(min(int(c.meta["steps"]), impl.get("steps_run") or 0)):
+        ks, p = str(k), pats[k]
+        if not bit(p, "F"):
+            continue
+        STATS["sis_failed_freeze_steps"] += 1
+        ev = word(impl, "events" + ks)
+        attempted = [t for t in ev if t in ("C", "M", "P", "I", "N", "L")]
+        if attempted or impl.get("correct_calls" + ks) != 0:
+            v.append(("C12:sis:correction-attempted-after-failed-freeze", "step %d: events %s" % (k, ev)))
+        if impl.get("ident_atlog" + ks) != 1:
+            parts = [q for q in ("w", "state") if impl.get("ident_atlog_%s%s" % (q, ks)) == 0]
+            v.append(("C12:sis:belief-changed-after-failed-freeze", "step %d: cor_particle_ != pred_particle_ at log() (%s)" % (k, parts or "mean/cov/shape")))
+    return v
+
+
 def oracle(c, impl, model):
-    """The property evaluated on the implementation alone."""
+    """The property evaluated on the implementation alone (the model is used only to pin the known finding)."""
     v = []
     kind, pats = c.kind, c.get("pat")
-    cons = CONSULTED[kind]
+    if kind == "sis":
+        return oracle_sis(c, impl)
     got = crash_point(impl)
+    gstep = garbage_step(c, model)
     steps = int(c.meta["steps"])
     last = steps if got is None else got[0] + (1 if got[1] == "lik" else 0)
-    if kind == "sis":
-        p = pats[0]
-        if p[4] == "1":
-            if impl.get("correct_calls") != 0:
-                v.append(("C12:sis:correction-attempted-after-failed-freeze", "correct() called %s time(s)" % impl.get("correct_calls")))
-            if impl.get("ident0") != 1:
-                v.append(("C12:sis:belief-changed-after-failed-freeze", "cor_particle_ != pred_particle_"))
-        return v
+    if gstep is not None:
+        key = "%s:%s" % (kind, "aborted" if got is not None and got[0] >= gstep else "ran-on")
+        STATS["empty_noise_covariance_consumed"][key] = STATS["empty_noise_covariance_consumed"].get(key, 0) + 1
+        last = min(last, gstep)
+    alias_gpf = flag(c, "alias") and kind.startswith("gpf_")
     had_success = False
     for k in range(last):
         ks, p = str(k), pats[k]
@@ -333,34 +506,48 @@ def oracle(c, impl, model):
             if kind == "gl":
                 if impl.get("lik_valid" + ks) != 0:
                     v.append(("C12:gl:value-reported:%s" % tag, "GaussianLikelihood reported a value"))
-            else:
-                if impl.get("ident" + ks) != 1:
-                    parts = [q for q in ("mean", "cov", "w", "shape", "state") if impl.get("ident_%s%s" % (q, ks)) == 0]
-                    if kind.startswith("gpf_") and not lik_must_fail:
-                        # refuted on the model: C12_gpf_inner_failure_refuted
+                continue
+            if impl.get("ident" + ks) != 1:
+                parts = [q for q in ("mean", "cov", "w", "shape", "state") if impl.get("ident_%s%s" % (q, ks)) == 0]
+                if alias_gpf:
+                    pass        # correct(p, p) is outside the property's precondition; the correspondence pins what happens
+                elif kind.startswith("gpf_") and not lik_must_fail:
+                    # the known finding (C12_gpf_inner_failure_not_detected): ONLY a re-draw around the predicted
+                    # moments and the re-weighting the model predicts is absorbed by it
+                    ok = impl.get("ident_mean" + ks) == 1 and impl.get("ident_cov" + ks) == 1 and impl.get("ident_shape" + ks) == 1
+                    if ok and model is not None:
+                        ok = ("gpfW(" in model.get("g" + ks)[0]) and ("sampleS(" in model.get("s" + ks)[0]) and impl.get("lik_valid" + ks) == 1
+                    if ok and k == 0 and impl.has("mirror_state_diff0"):
+                        sd, wd = impl.get("mirror_state_diff0"), impl.get("mirror_w_diff0")
+                        scale = max(1.0, float(np.max(np.abs(impl.get("state0")))))
+                        ok = sd <= 1e-9 * scale and wd <= 1e-7 * max(1.0, float(np.max(np.abs(impl.get("w0")))))
+                        STATS["finding_steps_pinned_to_model"] += 1
+                    if ok:
                         sig = "C12:%s:belief-changed:wrapped-correction-fails+likelihood-valid" % kind
                     else:
-                        sig = "C12:%s:belief-changed:%s" % (kind, tag)
+                        sig = "C12:%s:belief-changed:not-the-known-finding:%s" % (kind, tag)
                     v.append((sig, "step %d (%s): corrected belief differs from the predicted one in %s" % (k, tag, parts)))
-                if impl.get("pred_unchanged" + ks) != 1:
-                    v.append(("C12:%s:predicted-belief-modified:%s" % (kind, tag), "step %d" % k))
-                if full and had_success and kind in GAUSS_MEMBERS:
-                    STATS["likelihood_failure_checked_after_success"] += 1
-                if full and impl.get("lik_valid" + ks) == 1:
-                    if kind in GAUSS_MEMBERS:
-                        sig = "C12:%s:stale-likelihood:%s" % (kind, "failed-correction-after-success" if had_success else "fresh-object")
-                        v.append((sig, "step %d (%s): getLikelihood() reports a valid likelihood although this correction could not "
-                                       "use the measurement" % (k, tag)))
-                    elif lik_must_fail:
-                        v.append(("C12:%s:likelihood-valid-after-unusable-measurement:%s" % (kind, tag), "step %d" % k))
+                else:
+                    v.append(("C12:%s:belief-changed:%s" % (kind, tag), "step %d (%s): corrected belief differs from the predicted one in %s" % (k, tag, parts)))
+            if impl.get("pred_unchanged" + ks) != 1 and not alias_gpf:
+                v.append(("C12:%s:predicted-belief-modified:%s" % (kind, tag), "step %d" % k))
+            if full and had_success and kind in GAUSS:
+                STATS["likelihood_failure_checked_after_success"] += 1
+            if full and impl.get("lik_valid" + ks) == 1:
+                if kind in GAUSS:
+                    sig = "C12:%s:stale-likelihood:%s" % (kind, "failed-correction-after-success" if had_success else "fresh-object")
+                    v.append((sig, "step %d (%s): getLikelihood() reports a valid likelihood although this correction could not "
+                                   "use the measurement" % (k, tag)))
+                elif lik_must_fail:
+                    v.append(("C12:%s:likelihood-valid-after-unusable-measurement:%s" % (kind, tag), "step %d" % k))
         elif full and kind != "gl" and impl.get("lik_valid" + ks) == 1:
             had_success = True
-    if got is not None:
+    if got is not None and (gstep is None or got[0] < gstep):
         k, phase = got
-        p = pats[k]
-        if phase == "lik" and kind in GAUSS_MEMBERS:
+        p = pats[min(k, len(pats) - 1)]      # k == len(pats): the process ended abnormally after the last step (corrupted heap)
+        if phase == "lik" and kind in GAUSS:
             v.append(("C12:%s:stale-likelihood:getLikelihood-aborts" % kind,
-                      "step %d (%s): getLikelihood() after a correction that could not use the measurement ended abnormally: %s %s at %s"
+                      "step %d (%s): getLikelihood() ended abnormally: %s %s at %s"
                       % (k, unusable(c, p)[0], impl.get("crash_kind"), impl.get("crash_cond"), impl.get("crash_where"))))
         else:
             v.append(("C12:%s:crash:%s" % (kind, impl.get("crash_entry", ["?"])[0]),
@@ -368,31 +555,46 @@ def oracle(c, impl, model):
     return v
 
 
+def on_crash(c, info, model):
+    """A case that is not run in a child and ends the process."""
+    if flag(c, "emptyR") and garbage_step(c, model) is not None:
+        STATS["empty_noise_covariance_consumed"]["%s:process-ended" % c.kind] = STATS["empty_noise_covariance_consumed"].get("%s:process-ended" % c.kind, 0) + 1
+        return []
+    return None
+
+
 def nontrivial(c):
     pats = c.get("pat")
+    if c.kind == "sis":
+        return ("sis", c.meta["seq"], c.meta["degenerate"], c.meta["comps"]) if any(bit(p, "F") for p in pats) else None
     if any(unusable(c, p)[1] for p in pats):
-        return (c.kind, c.meta["seq"], c.meta["n"], c.meta["m"], c.meta["comps"])
+        return (c.kind, tuple(f for f in FLAGS if flag(c, f)), c.meta["seq"], c.meta["n"], c.meta["m"], c.meta["comps"])
     return None
 
 
 def histogram(cases):
-    h = {}
+    h, fl = {}, {}
     for c in cases:
         h[c.kind] = h.get(c.kind, 0) + 1
-    seqlen = {}
-    for c in cases:
-        seqlen[c.meta["steps"]] = seqlen.get(c.meta["steps"], 0) + 1
-    return {"class": h, "steps": seqlen,
+        for f in FLAGS:
+            if flag(c, f):
+                fl[f] = fl.get(f, 0) + 1
+    return {"class": h, "flags": fl,
             "steps_with_unusable_measurement_checked": STATS["steps_checked_identity"],
-            "getLikelihood_failure_checked_after_an_earlier_success": STATS["likelihood_failure_checked_after_success"]}
+            "getLikelihood_failure_checked_after_an_earlier_success": STATS["likelihood_failure_checked_after_success"],
+            "known_finding_steps_pinned_to_the_model_prediction": STATS["finding_steps_pinned_to_model"],
+            "sis_failed_freeze_steps_checked": STATS["sis_failed_freeze_steps"],
+            "deferred_to_C14_empty_noise_covariance_consumed_by_flag_ignoring_callers": STATS["empty_noise_covariance_consumed"]}
 
 
 LEVEL_TEXT = ("Proof: the control skeletons of KFCorrection, UKFCorrection (both constructors, with the measurement overloads of the unscented "
-              "transform), SUKFCorrection, GaussianLikelihood, BootstrapCorrection, GPFCorrection and SIS::filtering_step are proved, for every "
-              "fault pattern (a function from call site to bool), every belief and every numerical routine (function parameters), to return the "
-              "whole predicted object whenever a call the class honours reports unavailability, with the exact call log (always the prefix up to the "
-              "first failing call), and getLikelihood to report failure after any such correction whatever preceded it; with no fault the KF "
-              "skeleton is C01's kf_correct. One statement is refuted on the faithful model with witnesses and is a known finding (GPFCorrection "
-              "does not notice that the wrapped correction could not use the measurement when the likelihood model reports a value).")
-LEVEL_NOTE = ("Trusted: Coq kernel, extraction + driver, the harness's fault-injecting doubles; numerical routines are abstract here (C01/C04/C05/C08); "
-              "the tie to the code is sampled over all subsets of failing calls per class x random beliefs x call sequences.")
+              "transform), SUKFCorrection, GaussianLikelihood, BootstrapCorrection, GPFCorrection (any wrapped correction), the public "
+              "correct() wrappers with skip_, and SIS::filtering_step are proved, for every fault pattern, every sensor failing on its own at "
+              "the arguments of the call, every belief and every numerical routine, to return the whole predicted object (component-wise: "
+              "every mean, covariance, weight, state, shape field) whenever a call the class honours reports unavailability, with the exact "
+              "call log, and getLikelihood to report failure after any such correction; GPF/Bootstrap: identity iff the likelihood fails; "
+              "with no fault the KF skeleton is C01's kf_correct. Refuted with witnesses and registered as known finding: GPFCorrection does "
+              "not notice that the wrapped correction could not use the measurement when the likelihood model reports a value.")
+LEVEL_NOTE = ("Trusted: Coq kernel, extraction + driver, the harness's fault-injecting doubles, the Python table of getter calls; numerical "
+              "routines are abstract here; the skeletons are proved to be C01's kf_correct and C08's gpf_correct when instantiated with their routines, the corresponding links to C04 (UKF) and C05 (SUKF) are not proved; the tie to the code is "
+              "sampled over all subsets of failing calls per class x adversarial beliefs x call sequences x configurations.")
